@@ -340,7 +340,9 @@ impl<'a> Cx<'a> {
                 Ty::Vec => (format!("(vl {})", base.t), Ty::Slice),
                 t => return err(ix.span(), format!("range index on a value of type {}", t)),
             };
+            let after_base = self.assign_log.len();
             let n = self.lower_expr(bound, Some(&USIZE))?;
+            self.no_stale_reads(ix.span(), &[(base.t.clone(), after_base)])?;
             if n.ty != USIZE {
                 return err(ix.span(), "range bound is not a usize");
             }
@@ -348,7 +350,9 @@ impl<'a> Cx<'a> {
             self.push(S::Bind(t.clone(), format!("{} {} {}", op, l, n.t)));
             return Ok(Val::new(t, rty));
         }
+        let after_base = self.assign_log.len();
         let i = self.lower_expr(&ix.index, Some(&USIZE))?;
+        self.no_stale_reads(ix.span(), &[(base.t.clone(), after_base)])?;
         if i.ty != USIZE {
             return err(ix.span(), "index is not a usize");
         }
@@ -529,7 +533,9 @@ impl<'a> Cx<'a> {
             // ---- integers
             (Ty::Int(_), "cmp") if args.len() == 1 => {
                 let a = self.lower_expr(&m.receiver, Some(&rty))?;
+                let after_a = self.assign_log.len();
                 let b = self.lower_expr(strip_ref(args[0]), Some(&rty))?;
+                self.no_stale_reads(sp, &[(a.t.clone(), after_a)])?;
                 if a.ty != b.ty {
                     return err(sp, format!("`cmp` of {} with {}", a.ty, b.ty));
                 }
@@ -586,7 +592,9 @@ impl<'a> Cx<'a> {
             }
             (Ty::Bytes, "get") if args.len() == 1 => {
                 let r = self.lower_expr(&m.receiver, None)?;
+                let after_r = self.assign_log.len();
                 let i = self.lower_expr(args[0], Some(&USIZE))?;
+                self.no_stale_reads(sp, &[(r.t.clone(), after_r)])?;
                 if i.ty != USIZE {
                     return err(sp, "index is not a usize");
                 }
@@ -609,8 +617,10 @@ impl<'a> Cx<'a> {
             }
             (Ty::Slice, "get") | (Ty::Vec, "get") if args.len() == 1 => {
                 let r = self.lower_expr(&m.receiver, None)?;
+                let after_r = self.assign_log.len();
                 let r = self.coerce(r, &Ty::Slice);
                 let i = self.lower_expr(args[0], Some(&USIZE))?;
+                self.no_stale_reads(sp, &[(r.t.clone(), after_r)])?;
                 if i.ty != USIZE {
                     return err(sp, "index is not a usize");
                 }
@@ -635,13 +645,16 @@ impl<'a> Cx<'a> {
                     return err(sp, "wrong number of arguments");
                 }
                 let mut ts = vec![];
+                let mut ops = vec![(vx.cname.clone(), self.assign_log.len())];
                 for (a, w) in args.iter().zip(want.iter()) {
                     let v = self.lower_expr(a, Some(w))?;
                     if v.ty != *w {
                         return err(a.span(), format!("argument of type {} where {} is expected", v.ty, w));
                     }
+                    ops.push((v.t.clone(), self.assign_log.len()));
                     ts.push(v.t);
                 }
+                self.no_stale_reads(sp, &ops)?;
                 self.needs.c = true;
                 let mut v = Val::new(format!("({} (alloc c) {} {})", name, vx.cname, ts.join(" ")), Ty::OptUpd);
                 v.upd = vec![x];
